@@ -309,7 +309,10 @@ impl Enumerate for TakeIterator {
   }
 
   fn size_hint(&self) -> Option<usize> {
-    self.iter.size_hint().map(|hint| hint.min(self.take_count))
+    self
+      .iter
+      .size_hint()
+      .map(|hint| hint.min(self.take_count - self.current))
   }
 
   fn as_debug(&self) -> &dyn DebugHeap {
@@ -415,7 +418,7 @@ impl Enumerate for SkipIterator {
     self
       .iter
       .size_hint()
-      .map(|hint| hint.saturating_sub(self.skip_count))
+      .map(|hint| hint.saturating_sub(self.skip_count - self.current))
   }
 
   fn as_debug(&self) -> &dyn DebugHeap {
@@ -850,9 +853,13 @@ impl Enumerate for ChainIterator {
   }
 
   fn size_hint(&self) -> Option<usize> {
-    self.iters.iter().try_fold(0, |acc, current| {
-      current.size_hint().map(|current| acc + current)
-    })
+    self
+      .iters
+      .iter()
+      .skip(self.iter_index)
+      .try_fold(0, |acc, current| {
+        current.size_hint().map(|current| acc + current)
+      })
   }
 
   fn as_debug(&self) -> &dyn DebugHeap {
